@@ -33,4 +33,17 @@ with open(os.path.join(VERIF, "seeded", "INDEX.md"), "w") as f:
     n = len(rows)
     k = sum(1 for r in rows if r[4].startswith("reported"))
     f.write("\n%d of %d seeded changes are reported by the quick tier of their property's check.\n" % (k, n))
+# compact table inside DESIGN.md
+dp = os.path.join(VERIF, "DESIGN.md")
+ds = open(dp).read()
+b, e = "<!-- SEEDED-TABLE-BEGIN -->", "<!-- SEEDED-TABLE-END -->"
+if b in ds and e in ds:
+    t = ["", "| seeded change | file | reported by (sub-check: oracle clause) |", "|---|---|---|"]
+    for r in rows:
+        t.append("| %s | %s | %s%s |" % (r[0], r[2].replace("src/", ""), r[5].replace("|", "/") if r[4].startswith("reported") else "**MISSED**", " †" if "first run missed" in r[4] else ""))
+    t.append("")
+    t.append("† reported after the strengthening listed above. %d of %d reported by the quick tier." % (sum(1 for r in rows if r[4].startswith("reported")), len(rows)))
+    t.append("")
+    ds = ds[: ds.index(b) + len(b)] + "\n".join(t) + ds[ds.index(e):]
+    open(dp, "w").write(ds)
 print("rows", len(rows), "reported", sum(1 for r in rows if r[4].startswith("reported")))
